@@ -1093,6 +1093,7 @@ pub fn project(name: &str, trace: &[Value]) -> Vec<Value> {
         "acks" => crate::proj_ack::acks(trace),
         "routing" => crate::proj_c09::routing(trace),
         "cids" => crate::proj_cid::cids(trace),
+        "keys" => crate::proj_key::keys(trace),
         "migration" => crate::proj_c15::migration(trace),
         "dgram" => crate::proj_c16::dgram(trace),
         "zerortt" => crate::proj_c17::zerortt(trace),
